@@ -1,5 +1,5 @@
 (* Vec/QRInst.v — a second executable instance of the arithmetic record: exact rationals whose
-   + - * / results are rounded to ~220 significant bits (QInst.qrel).  The vector kernels
+   + - * / results are rounded to ~220 significant bits (qrel2 below).  The vector kernels
    (normalise, subtract, norm, atan2) make exact rationals grow to ~10^4 bits, where Z.sqrt under
    vm_compute costs about a second per case; with 220-bit rounding every operation is cheap and the
    model value is still accurate to ~1e-60 relative per step — far below the 1e-15 tolerances of the
@@ -9,9 +9,18 @@ From Verif.Sem Require Import Field Val QInst Corr.
 Import ListNotations.
 Open Scope string_scope.
 
+(* QInst.qrel with shifts instead of Z.pow / Qred: keep ~220 significant bits; the result is
+   n' / 2^s (or an integer), so no gcd is needed and sizes stay bounded across operations *)
+Definition qrel2 (q : Q) : Q :=
+  let n := Qnum q in
+  if (n =? 0)%Z then 0
+  else let s := (220 - (Z.log2 (Z.abs n) - Z.log2 (Zpos (Qden q))))%Z in
+       if (0 <=? s)%Z then Qmake (Z.shiftl n s / Zpos (Qden q)) (Pos.shiftl 1 (Z.to_N s))
+       else Qmake (Z.shiftl (n / Z.shiftl (Zpos (Qden q)) (- s)) (- s)) 1.
+
 Definition QROps (h mn : Q) : Fops :=
-  mkFops Q (fun a b => qrel (a + b)) (fun a b => qrel (a - b)) (fun a b => qrel (a * b)) (fun a b => qrel (a / b))
-         qopp (fun z => z # 1) (fun a => qsqrt (qrel a)) qsin qcos qatan2 qasin qexp qabs qpi
+  mkFops Q (fun a b => qrel2 (a + b)) (fun a b => qrel2 (a - b)) (fun a b => qrel2 (a * b)) (fun a b => qrel2 (a / b))
+         Qopp (fun z => z # 1) (fun a => qsqrt (qrel2 a)) qsin qcos qatan2 qasin qexp Qabs qpi
          qleb qltb qeqb qclose h mn qrint.
 
 Section R.
